@@ -307,7 +307,7 @@ PROPS["C02"] = {
 
 PROPS["C03"] = {
     "title": "Requests in flight never exceed max-workers and free capacity is used",
-    "units": [{"name": "bubble", "pkg": "libsync", "go": "go1.26.8", "run": "^TestC02(Random|Exhaustive|TwoAttacks)", "env": {"VERIF_AS": "C03"}, "scale_thorough": 6}],
+    "units": [{"name": "bubble", "pkg": "libsync", "go": "go1.26.8", "run": "^(TestC02(Random|Exhaustive|TwoAttacks)|TestC03RealPacer)", "env": {"VERIF_AS": "C03"}, "scale_thorough": 6}],
     "rule": "Same bubble histories as C02 (exhaustive up to length 4/6/7 over workers 0..3 x max-workers 1..3, random "
             "up to 200 actions with max-workers up to 64, any initial worker count incl. 0 and > max). Non-trivial = a "
             "tick while all max workers were busy (pending hit) or a stop cause with hits in flight; distinct = (config, "
